@@ -276,6 +276,34 @@ def handleSrvClose (st : SrvSt) (c : Nat) (resps : List Resp) (code : String) : 
   let st := { st with srv := st.srv.close c }
   st.covr ("close." ++ code)
 
+/-- a batch cut part-way: the transport accepted `j` responses and then failed. The code as it
+exists programs the operations whose results it managed to hand over plus the one it had in
+hand: the first `j + 2` of the batch; the session is removed. -/
+def handleSrvCutMid (st : SrvSt) (c : Nat) (j : Nat) (ops : List Op) (resps : List Resp) (code : String) : SrvSt :=
+  let st := { st with prevEnts := st.rs.implEnts, prevPend := st.rs.implPend }
+  let rs := ops.foldl (fun rs op => { rs with ops := rs.ops.insert op.id op }) st.rs
+  let st := { st with rs := rs }
+  let fibSession := ((implSessOf st c).map (fun (s : ObsSess) => s.params.fibAck)).getD false
+  let st := c06Account st c (ops.map (·.id)) resps fibSession
+  let st := if resps.length ≤ j then st else st.monfail "c10" s!"{resps.length} responses reached a client whose transport accepted only {j}"
+  let st := if code = "open" then st.monfail "c10" "the RPC stayed open after the client had gone away" else st
+  if st.rs.diverged then st else
+  let applied := ops.take (j + 2)
+  let srv := { st.srv with rib := st.rs.model }
+  match srv.recv c (.ops (applied.map (fun o => (o, [])))) with
+  | none => st.diff "cut.not-accepted" s!"session={c}"
+  | some (srv', out) =>
+    -- the acknowledgements that were lost in transit still count for the contents (C01 fold)
+    let programmed : List Nat := out.resps.flatMap (fun r => match r with
+      | .results l => (l.filter (fun x => x.2 == AftStatus.rib)).map (·.1)
+      | _ => [])
+    let st := { st with rs := ackFold st.rs programmed }
+    let srv' := srv'.close c
+    let st := { st with srv := srv', rs := { st.rs with model := srv'.rib, lastHooks := out.ribOuts.flatMap (fun (o : Rib.Out) => o.hooks) } }
+    let st := st.covr "cutmid"
+    if resps == out.resps.take resps.length then st
+    else st.diff "cut.resps" s!"session={c} model={(out.resps.take resps.length).map showResp} impl={resps.map showResp}"
+
 def handleSrvFlush (st : SrvSt) (ni : Server.NiSel) (el : Server.FlushElec) (code reason result : String) : SrvSt :=
   let st := { st with prevEnts := st.rs.implEnts, prevPend := st.rs.implPend }
   -- C08 monitor on the implementation's own election snapshot
@@ -466,6 +494,14 @@ def srvLine (st : SrvSt) (ts : List Tok) : SrvSt :=
           else if k = "multi" then handleSrvMsg st sc .multi [] resps code reason
           else if k = "empty" then handleSrvMsg st sc .empty [] resps code reason
           else bad st
+      | _, _ => bad st
+    else if c = "srv.cutmid" then
+      let st := bump st
+      match beforeArrow args, parseOutcome (groups (afterArrow args)) with
+      | sc :: j :: _mode :: rest, some (resps, code, _) =>
+        match natOf sc, natOf j, parseOps rest with
+        | some sc, some j, some ops => handleSrvCutMid st sc j ops resps code
+        | _, _, _ => bad st
       | _, _ => bad st
     else if c = "srv.close" then
       let st := bump st
